@@ -22,6 +22,10 @@ CHECKS = {
    text="seeded histories of top-level calls that share spec objects, Vars objects and scope= dicts, some interleaved by the seeded scheduler or nested re-entrantly; every call's result compared with a lexical-frame reference model evaluated for that call alone (tokens derive from the call's own target, so any leak across calls, siblings or enclosing positions is a mismatch); caller scope mapping and spec graph snapshots before/after.",
    note="trusts: the lexical-frame reference model (glomsim/models/frames.py) as the reading of the statement; where the statement is silent the generator places no readers",
    technique="deterministic simulation of call histories and schedules, reference-model (lexical frames) oracle + snapshots"),
+ "C04": dict(level="fault_enumeration", engine="faultsim", design="4/C04",
+   text="per sampled workload item every collaborator point of the fault-free run (capped at 30/60) x catalogue classes is executed as a single-fault plan, plus seeded multi-fault plans; each plan as differential twin runs (glom_debug / plain / default x skip_exc) in cold state; clauses: class kept, args kept, GlomError-ness, unrebuildable identity, BaseException untouched, documented subtype per site kind, debug identity, selective default.",
+   note="trusts: site kind read from glom frame names/locals on the stack at the fault (unknown stack disables only the documented-subtype clause); determinism of twin runs (self-tested)",
+   technique="deterministic simulation with enumerated single-fault injection at every collaborator point + seeded multi-fault plans, differential twin-run oracle"),
  "C06": dict(level="exploration", engine="histsim", design="4/C06",
    text="seeded histories (calls, repeats, cache floods with small Path._MAX_CACHE, PATH_STAR toggles, cache drops, registrations, Glommers, aborted calls by collaborator BaseException and by line crashes inside glom, interleaved pairs) in one long-lived private instance; each call compared with a cold instance, plus identity-preserving before/after snapshots of target, spec graph and scope mapping.",
    note="trusts: cold private instance of the same code as reference; snapshot walker (C-level access to containers, __dict__/__slots__ walk of spec objects)",
